@@ -234,6 +234,8 @@ func (p *Program) RunPath(entry *ssa.Function, opt *Options, sol *Solver, prefix
 					m.Res.End, m.Res.EndMsg = e.Kind, e.Msg
 				case *GoPanic:
 					m.Res.End, m.Res.EndMsg = "panic", e.Msg
+				case *exitPanic:
+					m.Res.End, m.Res.EndMsg = "exit", fmt.Sprint(e.code)
 				case *kernelCrash:
 					m.Res.End, m.Res.EndMsg = "crash", "crash point reached outside verifCrashed"
 				default:
